@@ -367,7 +367,11 @@ _R4["GlueKeyDerivers"] = ["-ns", "TinkVerif.Gen.GlueKeyDerivers", "-pkg", "keyde
     "-opaque", "hmacPRFDeriver:prf/hmacprf.NewKey=newKey", "-opaque", "hmacPRFDeriver:secretdata.NewBytesFromData=secretBytes",
     "-read", "hkdfPRFDeriver:io.ReadFull=readFull", "-opaque", "hkdfPRFDeriver:(*prf/hkdfprf.Parameters).KeySizeInBytes=keySize",
     "-opaque", "hkdfPRFDeriver:prf/hkdfprf.NewKey=newKey", "-opaque", "hkdfPRFDeriver:secretdata.NewBytesFromData=secretBytes"]
-_R4_OWNERS = {"GlueKeyDerivers": ["C17"], "GluePrfSet": ["C15"], "GluePrefixmap": ["C02", "C05"], "GlueHmacMac": ["C01", "C04"], "GluePss": ["C03"], "GlueKmsEnv": ["C02"], "GlueEcies": ["C06"], "GlueDeriveKeyset": ["C17"], "GlueManagerAdd": ["C11", "C20"],
+# C16: the ADRS layout of internal/signature/slhdsa/address.go (methods of *address, address = [32]byte: the receiver is its content)
+_R4["GlueSlh"] = ["-ns", "TinkVerif.Gen.GlueSlh", "-pkg", "internal/signature/slhdsa", "-sub", "SlhGo", "-recv", "address",
+    "-funcs", "setLayerAddress,setTreeAddress,setTypeAndClear,setKeyPairAddress,keyPairAddress,setChainAddress,setTreeHeight,"
+              "setHashAddress,setTreeIndex,treeIndex,compress"]
+_R4_OWNERS = {"GlueSlh": ["C16"], "GlueKeyDerivers": ["C17"], "GluePrfSet": ["C15"], "GluePrefixmap": ["C02", "C05"], "GlueHmacMac": ["C01", "C04"], "GluePss": ["C03"], "GlueKmsEnv": ["C02"], "GlueEcies": ["C06"], "GlueDeriveKeyset": ["C17"], "GlueManagerAdd": ["C11", "C20"],
               "GlueJwtKid": ["C05", "C09"], "GlueJwt": ["C05", "C09"], "GlueIdReq": ["C11", "C20"], "GlueStreamNew": ["C07"], "GlueHkdfPrf": ["C15"], "GlueHmacNew": ["C01", "C04"]}
 GEN.update({n: {"owner": _R4_OWNERS[n], "tool": "gluetr", "args": a} for n, a in _R4.items()})
 
